@@ -3,10 +3,12 @@
    OCaml's own; N, Z, positive, nat stay extracted inductive types. *)
 From Coq Require Import Extraction ExtrOcamlBasic.
 From Cfb.model Require Import Base Names Time DirEnt State Alloc Dir Mini Store Handle Open Cfb.
+From Cfb.spec Require Import Tree Abs WfImage.
 Extraction Language OCaml.
 Extraction "model.ml"
   step init_fstate open_model concat_img create_state
   cmp_names validate_name name_chain_from_path upper utf16
   from_system_time to_system_time
   dirent_decode dirent_encode header_decode
+  spec_step empty_tree abs_state wf_check
   N.add N.mul N.div_eucl N.of_nat N.to_nat N.compare Z.opp Z.of_N lenN.
